@@ -8,10 +8,11 @@ from twisted.internet.defer import Deferred
 from impl import connect
 
 ID = "C18"
-PROOF_MODULES = ["VncProofs.C18", "VncProofs.C17"]
+PROOF_MODULES = ["VncProofs.C18", "VncProofs.C17", "VncProofs.C18Ptr"]
 THEOREMS = ["Vnc.C18_quote_split", "Vnc.C18_quote_alone", "Vnc.C18_safe_word", "Vnc.C18_name_roundtrip", "Vnc.C18_token_is_quoted_word",
             "Vnc.C18_word_decodes", "Vnc.C18_fmt_safe", "Vnc.C18_line_tokens", "Vnc.C18_line_compiles", "Vnc.C18_replay", "Vnc.C18_recorder_line",
-            "Vnc.C17_record_key", "Vnc.C17_record_pointer"]
+            "Vnc.C17_record_key", "Vnc.C17_record_pointer",
+            "Vnc.C18_session_compiles", "Vnc.C18_session_keys", "Vnc.C18_pointer_event_replay", "Vnc.C18_session_positions", "Vnc.C18_session_pauses", "Vnc.C18_pause_value"]
 TRUSTED = [
     "Lean 4.33 kernel; standard axioms only",
     "VncModel/Shlex.lean is tied to CPython's shlex (posix, whitespace_split) and shlexQuote to shlex.quote by this correspondence run on an adversarial alphabet (quotes, backslash, #, blanks incl. tab/CR/LF, NUL, non-ASCII); recorder, compiler and key decoder models are tied by C17, C10, C04",
